@@ -110,12 +110,27 @@ def gen_specs(rng: random.Random, n, hints=None):
         size = nb * spb * 512 - (512 * rng.randint(0, max(0, spb - 1)) if rng.random() < 0.4 else 0)
         out.append({"kind": "dynamic", "spb": spb, "nblocks": nb, "size": max(512, size), "bat": bat, "footer511": rng.random() < 0.3,
                     "data_gap": rng.choice([0, 0, 1, 5])})
+    # always: a disk with several thousand BAT entries (one-sector blocks keep it small), allocated blocks on both sides of entry 4096 and
+    # at the very end: table entries far from the start of the BAT must be looked up at offset + 4 * index like the first ones
+    nb = rng.choice([4100, 4200, 5000])
+    key = sorted({0, 1, 1000, 3071, 3072, 4094, 4095, 4096, 4097, nb - 2, nb - 1} | {rng.randrange(nb) for _ in range(6)})
+    slots = list(range(len(key)))
+    rng.shuffle(slots)
+    bat = [None] * nb
+    for b, s_ in zip(key, slots):
+        bat[b] = s_
+    out.append({"kind": "dynamic", "spb": 1, "nblocks": nb, "size": nb * 512, "bat": bat, "footer511": False, "data_gap": 0, "many": key})
     return out
 
 
 def requests(spec, rng, limit=60):
     size = spec["size"]
     unit = 512
+    if spec.get("many"):
+        reqs = [(0, size)]
+        for b in spec["many"]:
+            reqs += [(b * 512, 512), (max(0, b - 1) * 512 + 100, 1000), (max(0, b - 2) * 512, 5 * 512)]
+        return reqs
     ns = size // unit
     reqs = [(0, size), (0, size + 100)]
     pairs = [(a, b) for a in range(ns + 1) for b in range(a, ns + 1)]
